@@ -82,6 +82,8 @@ def run_worker(pid: str, tier: str, camp_name: str, shard: int, nshards: int, ou
             info = camp.check(case)
             if isinstance(case, dict) and case.get("fractional_stamps") and "sub_microsecond_stamps" not in info.classes:
                 info.classes.append("sub_microsecond_stamps")  # generator dimension shared by every G-sim user
+            if isinstance(case, dict) and case.get("unrounded") and "unrounded_fractional_times" not in info.classes:
+                info.classes.append("unrounded_fractional_times")  # HTA_DISABLE_NS_ROUNDING=1, quarter-microsecond stamps
         except Violation as v:
             if state["fail_t"] is None:
                 state["fail_t"] = time.time()
